@@ -158,4 +158,25 @@ CLAIMS["C12"] = _b(
     "the C13 theorems). 'Never sends a kind newer than the receiver's version' is additionally an oracle on every message of every "
     "correspondence run; a global invariant over introspection registrations is not proved: partial there.", "DESIGN.md section 6 C12")
 
+CLAIMS["C20"] = {
+    "text": "Translation + machine-checked proof (Lean 4). tools/extract_ir.py reads, on every run, the 17 Serialize impls of the "
+            "introspection IR (which declared fields of which record go on the wire, under which id, which only when present), the "
+            "variant tables, namespaces, version and the shape of the Compute record; the Lean model serializes a generic IR by that "
+            "table, runs the work-list closure, builds the ordered set and the pre-image and (in the driver) the UUIDv5. Proved: doc is "
+            "declared but never serialized and is the only such field (facts about the translated tables), so replacing documentation "
+            "anywhere leaves the bytes unchanged (docs_do_not_matter); the order in which a record's fields are listed does not matter "
+            "(field_order_does_not_matter); the set of referenced layouts and hence the pre-image depends only on which layouts were "
+            "collected, not on visiting order or multiplicity (reference_order_does_not_matter); a serialized field whose contribution "
+            "changes changes the record's value (serialized_field_matters, ids unique per record from the tables), different well-formed "
+            "values have different bytes (encoding_injective, from the C01 round trip), and equal pre-images come from equal root bytes and "
+            "equal sets (preimage_injective). Tie: final type ids of the real TypeId::compute_from_dyn vs. the model on random type "
+            "graphs; implementation-only oracles for invariance (docs, builder order, reference order/duplicates), sensitivity (one "
+            "semantic edit of a reachable type) and the Introspection record round trip.",
+    "note": "Trusted: Lean kernel (+propext, Classical.choice, Quot.sound), tools/extract_ir.py, the harness. Assumed: SHA-1 collision "
+            "resistance (ids differ when pre-images differ). Partial: that the closure loop collects exactly the reachable types is tied by "
+            "correspondence only; layouts produced by the derive macro / code generator for a schema are not compared (only hand-built IR).",
+    "design_ref": "DESIGN.md section 6 C20, section 10",
+    "technique": "source-to-Lean translation of the IR serializers + Lean 4 proofs over a generic IR model + differential correspondence on final type ids",
+}
+
 NOT_APPLICABLE = {}
